@@ -209,6 +209,9 @@ func (v *c04) probes(x *Ctx, s *St) {
 // RunC04 explores the play grid with the turn-order oracle and refusal probes.
 func RunC04(rep *explore.Report, tier string) {
 	rep.Set("rule", "every reachable state of the play grid; at each: who is offered actions and the turn-order relation on every transition, plus refusal probes (every action kind with representative amounts by every seat that is not to act, every action not offered to the seat to act, every table operation and per-seat forced bet outside its phase, everything at GameClosed); distinct_nontrivial = betting states whose offer/turn structure was checked")
+	if RunScenes(rep, tier, Visitors["C04"], GridOpts{Property: "C04"}) {
+		return
+	}
 	RunGrid(rep, PlayGrid(tier), Visitors["C04"], GridOpts{Property: "C04", CrossN: 0, MaxState: 3000000})
 	// the same oracle on genuinely uninterrupted objects (pure replay, no state cloning)
 	RunGrid(rep, ReplayGrid(tier), Visitors["C04"], GridOpts{Property: "C04", MaxState: 300000, Mode: "replay"})
